@@ -222,6 +222,9 @@ pub fn run<G: Grp>(m: &mut Machine, name: &str, args: &[Val]) -> R<Out> {
         }
         "eq" => ok1(Val::Bool(p(0)? == p(1)?)),
         "aeq" => ok1(Val::Bool(a(0)? == a(1)?)),
+        // the != operator is a trait method of its own (PartialEq::ne can be overridden)
+        "ne" => ok1(Val::Bool(p(0)? != p(1)?)),
+        "ane" => ok1(Val::Bool(a(0)? != a(1)?)),
         "to_affine" => ok1(G::wa(p(0)?.into_affine())),
         "to_affine_from" => ok1(G::wa(G::A::from(p(0)?))),
         "to_proj" => ok1(G::wp(a(0)?.into_projective())),
@@ -234,6 +237,35 @@ pub fn run<G: Grp>(m: &mut Machine, name: &str, args: &[Val]) -> R<Out> {
             let mut v: Vec<G::P> = l.iter().map(|x| G::gp(x)).collect::<R<Vec<_>>>()?;
             G::P::batch_normalization(&mut v);
             ok1(Val::List(v.into_iter().map(G::wp).collect()))
+        }
+        // batch_norm_n P n: n non-normalised representatives of P (Z = 2, 3, ...), normalised in one batch; returns the
+        // first and the last entry and the number of entries equal (coordinate-wise) to into_affine(P)
+        "batch_norm_n" => {
+            let base = p(0)?;
+            let cnt = n(1)? as usize;
+            let want = base.into_affine().into_projective();
+            let mut v: Vec<G::P> = Vec::with_capacity(cnt);
+            let mut acc = base;
+            for i in 0..cnt {
+                // P + O in another representative: add and subtract the running multiple keeps Z varying cheaply
+                let mut q = base;
+                if i % 2 == 1 {
+                    q.double();
+                    q.sub_assign(&base);
+                }
+                if i % 3 == 2 {
+                    acc.double();
+                    q.add_assign(&acc);
+                    q.sub_assign(&acc);
+                }
+                v.push(q);
+            }
+            G::P::batch_normalization(&mut v);
+            let good = v.iter().filter(|x| x.is_normalized() && x.as_tuple() == want.as_tuple()).count();
+            if cnt == 0 {
+                return Ok(Out::Ok(vec![Val::Int(0)]));
+            }
+            Ok(Out::Ok(vec![Val::Int(good as i64), G::wp(v[0]), G::wp(v[cnt - 1])]))
         }
         "random" => {
             let s = get_bytes(arg(args, 0)?)?;
